@@ -11,7 +11,7 @@ EXTENDS Journal
 Pick(S) == RandomElement(S)
 Coin(n, x) == RandomElement(1..n) = 1          \* x: dummy, keeps TLC from caching the draw
 
-ValuesA == { <<5, 0>>, <<100, 0>>, <<1050, 2>>, <<123456, 2>>, <<1234567, 0>>, <<2500, 0>>, <<1, 0>>, <<99, 2>>, <<100000, 0>>, <<125, 3>>, <<5, 1>> }
+ValuesA == { <<5, 0>>, <<100, 0>>, <<1050, 2>>, <<123456, 2>>, <<1234567, 0>>, <<2500, 0>>, <<1, 0>>, <<99, 2>>, <<100000, 0>>, <<125, 3>>, <<5, 1>>, <<1234567, 3>> }
 
 RandAmtIn(x, vals, comms) ==
     LET v    == Pick(vals)
